@@ -39,27 +39,34 @@ def run(ctx: Ctx) -> None:
     for (mod, qn), why in POSITIONAL.items():
         f = prog.func(mod, qn)
         subs = [n for n in walk_no_nested(f.node) if isinstance(n, ast.Subscript) and isinstance(n.value, ast.Attribute) and n.value.attr in ('iloc', 'loc', 'iat', 'at')]
-        sel = [n for n in subs if unparse(n.value.value) in ('self.data', 'self.individualMap')]
-        other = [n for n in subs if unparse(n.value.value).startswith('self.') and n not in sel]
+        # the table an indexer is applied to: single-definition locals and copies (`.copy()`) are looked through
+        frames = {id(n): unparse(_frame(f.node, n.value.value)) for n in subs}
+        sel = [n for n in subs if frames[id(n)] in ('self.data', 'self.individualMap')]
+        other = [n for n in subs if frames[id(n)] in SNAPSHOTS and _is_snapshot(D, frames[id(n)])]
         if not sel and other:
-            fr = unparse(other[0].value.value)
-            ctx.add('C13.R1', f'{qn}:selection', False, (f.file, other[0].lineno), f'{qn} takes its rows from {fr}, not from self.data: self.data is the table that remove(), add_column(), scale_column() and the sorting done '
+            fr = frames[id(other[0])]
+            ctx.add('C13.R1', f'{qn}:selection', False, (f.file, other[0].lineno), f'{qn} takes its rows from {fr} ({SNAPSHOTS[fr]}), not from self.data: self.data is the table that remove(), add_column(), scale_column() and the sorting done '
                     f'for panel data keep current, {fr} is not kept in step with it - rows that were removed can come back and added columns are missing', fr, positive=True)
             continue
         if not sel:
             plain = [n for n in walk_no_nested(f.node) if isinstance(n, ast.Subscript) and unparse(n.value) in ('self.data', 'self.individualMap')]
-            ctx.add('C13.R1', f'{qn}:selection', False, f, f'{qn} no longer selects rows with an indexer ({[unparse(p)[:40] for p in plain]})', 'no indexer')
+            strange = sorted({frames[id(n)][:40] for n in subs if frames[id(n)].startswith('self.')})
+            ctx.add('C13.R1', f'{qn}:selection', None, f, f'{qn}: the rows are not selected with an indexer on self.data / self.individualMap in a form the rule understands '
+                    f'(plain subscripts {[unparse(p)[:40] for p in plain]}, indexers on {strange})', 'no indexer')
             continue
         for n in sel:
-            frame = unparse(n.value.value)
+            frame = frames[id(n)]
             ok = n.value.attr == 'iloc'
-            ctx.add('C13.R1', f'{qn}:{frame}.{n.value.attr}', ok, (f.file, n.lineno),
-                    f'{frame}.{n.value.attr}[{unparse(n.slice)[:50]}] ({why})' + ('' if ok else ': positions are used as labels - wrong rows (or KeyError) once the index has gaps'), f'{frame}.{n.value.attr}', positive=n.value.attr in ('loc', 'at'))
+            # .loc with labels obtained from the positions (frame.index[positions]) is a selection by label: not decided here
+            labels = any(isinstance(x, ast.Attribute) and x.attr == 'index' for x in ast.walk(inline_locals(f.node, n.slice)))
+            bylabel = n.value.attr in ('loc', 'at') and not labels
+            ctx.add('C13.R1', f'{qn}:{frame}.{n.value.attr}', ok if (ok or bylabel) else None, (f.file, n.lineno),
+                    f'{frame}.{n.value.attr}[{unparse(n.slice)[:50]}] ({why})' + ('' if ok else (': positions are used as labels - wrong rows (or KeyError) once the index has gaps' if bylabel else
+                                                                                     ': not a selection by position in a form the rule understands')), f'{frame}.{n.value.attr}', positive=bylabel)
             # the bound of the positions is the length of the same frame
-            txt = unparse(f.node)
-            rnd = [c for c in ast.walk(n.slice) if isinstance(c, ast.Call) and call_name(c) == 'randint']
+            rnd = [c for c in ast.walk(inline_locals(f.node, n.slice)) if isinstance(c, ast.Call) and call_name(c) == 'randint']
             if rnd:
-                okb = all(len(c.args) >= 2 and unparse(c.args[0]) == '0' and unparse(c.args[1]) == f'len({frame})' for c in rnd)
+                okb = all(len(c.args) >= 2 and unparse(c.args[0]) == '0' and unparse(inline_locals(f.node, c.args[1])) in (f'len({frame})', f'{frame}.shape[0]') for c in rnd)
             else:
                 okb = has(f.node, f'''
 _MAX = len({frame}) - 1
@@ -176,21 +183,172 @@ else:
         ctx.add('C13.R3', 'Database.split:rows', ok, f, 'ungrouped slices partition a permutation of all rows' if ok else 'ungrouped slicing changed', 'rows')
     # panel: groups = panelColumn dominates the choice between grouped and ungrouped slicing
     setg = [n for n in walk_no_nested(f.node) if isinstance(n, ast.Assign) and unparse(n.targets[0]) == 'groups' and unparse(n.value) == 'self.panelColumn']
-    choose = [n for n in walk_no_nested(f.node) if isinstance(n, ast.If) and unparse(n.test) == 'groups is None']
+    choose = [n for n in walk_no_nested(f.node) if isinstance(n, ast.If) and _none_test(n.test, 'groups') is True]
+    # every other binding of `groups` / of the panel column in the function (the parameter apart)
+    own = {id(t) for a in setg for t in a.targets}
+    rebound = [x for x in walk_no_nested(f.node) if isinstance(x, (ast.Name, ast.Attribute)) and isinstance(x.ctx, (ast.Store, ast.Del)) and unparse(x) in ('groups', 'self.panelColumn') and id(x) not in own]
     ok = False
-    if len(setg) == 1 and len(choose) == 1:
-        guard = [n for n in walk_no_nested(f.node) if isinstance(n, ast.If) and setg[0] in n.body]
-        ok = len(guard) == 1 and unparse(guard[0].test) == 'self.is_panel()' and cfg.dominates(cfg.node_of(guard[0]), cfg.node_of(choose[0])) and seq(setg[0]) < seq(choose[0])
     narrowed = None
-    if not ok and len(setg) == 1:
-        # the assignment is there but under a stronger condition than "the data are panel data"
-        guard = [n for n in walk_no_nested(f.node) if isinstance(n, ast.If) and any(x is setg[0] for x in ast.walk(n))]
-        tests = [unparse(v) for g_ in guard for v in (g_.test.values if isinstance(g_.test, ast.BoolOp) and isinstance(g_.test.op, ast.And) else [g_.test])]
-        extra = [t for t in tests if t != 'self.is_panel()']
-        if 'self.is_panel()' in tests and extra:
-            narrowed = f'`groups = self.panelColumn` is executed only when `{" and ".join(extra)}` also holds: on panel data, a call without `groups` shuffles single rows and separates the observations of one individual'
+    if len(setg) == 1 and len(choose) == 1 and 'groups' in f.params() and seq(setg[0]) < seq(choose[0]):
+        chain = _guards(f.node, setg[0])
+        if isinstance(chain, list) and chain:
+            facts = _facts(chain)
+            kinds = [_kind_of_fact(f.node, cfg, chain[0][0], e, pol, rebound) for e, pol in facts]
+            top = next(n for n in walk_no_nested(f.node) if isinstance(n, ast.If) and n.test is chain[0][0])
+            before = cfg.dominates(cfg.node_of(top), cfg.node_of(choose[0]))
+            # exactly "the data are panel data"; conjuncts that are proved to hold there (or under which the assignment is a no-op) do not count
+            ok = before and not rebound and kinds.count('panel') >= 1 and all(k in ('panel', 'holds', 'no-op') for k in kinds)
+            if not ok and before and not rebound and 'not-none' in kinds:
+                # the seeded defect: the assignment sits under a test that fails exactly in the case it is there for (no grouping column given)
+                cond = ' and '.join(('' if pol else 'not ') + f'({unparse(e)})' for (e, pol), k in zip(facts, kinds) if k == 'not-none')
+                narrowed = (f'`groups = self.panelColumn` is executed only when `{cond}` holds, that is never when the caller gives no grouping column; `groups` is not bound anywhere else, so on panel data '
+                            f'a call without `groups` reaches `if groups is None:` with None, shuffles single rows and separates the observations of one individual')
     ctx.add('C13.R3', 'Database.split:panel', ok if (ok or narrowed) else None, f, 'on panel data the rows of one individual are never separated (groups = panel column whenever is_panel())' if ok else
             (narrowed or 'the way the panel column becomes the grouping column is not in the expected form'), 'panel', positive=bool(narrowed))
+
+
+#: tables of a Database that are NOT kept in step with self.data by remove / add_column / scale_column / panel: what they hold
+SNAPSHOTS = {
+    'self.fullData': 'the table as it was given to the constructor',
+    'self.fullIndividualMap': 'the individual map as panel() built it',
+}
+
+
+def _is_snapshot(D, text: str) -> bool:
+    """the attribute is indeed a table of the class (bound somewhere in it)"""
+    return any(isinstance(a, ast.Assign) and any(unparse(t) == text for t in a.targets) for m_ in D.methods.values() for a in walk_no_nested(m_.node))
+
+
+def _frame(func_node, e: ast.expr) -> ast.expr:
+    """the table behind an expression: single-definition locals are replaced by their value, copies of a table are that table"""
+    e = inline_locals(func_node, e)
+    while isinstance(e, ast.Call) and isinstance(e.func, ast.Attribute) and e.func.attr == 'copy' and not e.args and all(k.arg == 'deep' for k in e.keywords):
+        e = e.func.value
+    return e
+
+
+def _none_test(t: ast.expr, name: str):
+    """True: t says `name is None`; False: t says `name is not None`; None: something else"""
+    if isinstance(t, ast.UnaryOp) and isinstance(t.op, ast.Not):
+        r = _none_test(t.operand, name)
+        return None if r is None else not r
+    if isinstance(t, ast.Compare) and len(t.ops) == 1:
+        a, b = unparse(t.left), unparse(t.comparators[0])
+        if {a, b} == {name, 'None'}:
+            if isinstance(t.ops[0], (ast.Is, ast.Eq)):
+                return True
+            if isinstance(t.ops[0], (ast.IsNot, ast.NotEq)):
+                return False
+    return None
+
+
+def _guards(func_node, stmt):
+    """the tests that decide whether stmt is executed: [(test, branch taken)] from the outermost `if` inwards;
+    'other' when a loop / try / with stands in between, None when stmt is not in the function"""
+    def rec(body, acc):
+        for st in body:
+            if st is stmt:
+                return acc
+            if isinstance(st, ast.If):
+                for blk, pol in ((st.body, True), (st.orelse, False)):
+                    r = rec(blk, acc + [(st.test, pol)])
+                    if r is not None:
+                        return r
+            elif not isinstance(st, (ast.FunctionDef, ast.AsyncFunctionDef, ast.ClassDef)) and any(x is stmt for x in ast.walk(st)):
+                return 'other'
+        return None
+    return rec(func_node.body, [])
+
+
+def _facts(chain) -> list[tuple[ast.expr, bool]]:
+    """what is known to hold where the chain of tests leads: (expression, its truth value); a conjunction taken on its true
+    side gives its conjuncts, a disjunction taken on its false side gives its disjuncts (false), `not` flips"""
+    out = []
+
+    def put(e, pol):
+        if isinstance(e, ast.UnaryOp) and isinstance(e.op, ast.Not):
+            put(e.operand, not pol)
+        elif isinstance(e, ast.BoolOp) and isinstance(e.op, ast.And if pol else ast.Or):
+            for v in e.values:
+                put(v, pol)
+        else:
+            out.append((e, pol))
+    for t, pol in chain:
+        put(t, pol)
+    return out
+
+
+_FLIP = {ast.Lt: ast.GtE, ast.GtE: ast.Lt, ast.Gt: ast.LtE, ast.LtE: ast.Gt, ast.Eq: ast.NotEq, ast.NotEq: ast.Eq, ast.Is: ast.IsNot, ast.IsNot: ast.Is, ast.In: ast.NotIn, ast.NotIn: ast.In}
+_MIRROR = {ast.Lt: ast.Gt, ast.Gt: ast.Lt, ast.LtE: ast.GtE, ast.GtE: ast.LtE, ast.Eq: ast.Eq, ast.NotEq: ast.NotEq}
+_PANEL = ('self.is_panel()', 'self.isPanel()', 'self.panelColumn is not None', 'None is not self.panelColumn', 'self.panelColumn != None')
+
+
+def _same_claim(e: ast.expr, pol: bool) -> set[str]:
+    """texts of the comparison that says the same as `e is pol` (operator flipped for pol False, operands mirrored)"""
+    out = {unparse(e)} if pol else {f'not {unparse(e)}'}
+    if isinstance(e, ast.Compare) and len(e.ops) == 1:
+        op = type(e.ops[0]) if pol else _FLIP.get(type(e.ops[0]))
+        if op is not None:
+            out.add(unparse(ast.Compare(left=e.left, ops=[op()], comparators=e.comparators)))
+            if op in _MIRROR:
+                out.add(unparse(ast.Compare(left=e.comparators[0], ops=[_MIRROR[op]()], comparators=[e.left])))
+    return out
+
+
+def _raises(body) -> bool:
+    return bool(body) and isinstance(body[-1], ast.Raise)
+
+
+def _kind_of_fact(func_node, cfg, top_test, e: ast.expr, pol: bool, rebound) -> str:
+    """role of one fact among the tests that guard `groups = self.panelColumn`:
+    'panel'    the data are panel data
+    'not-none' it implies that a grouping column was given (groups is not None)
+    'holds'    it is known to hold at that point: an earlier top-level `if <the contrary>: ... raise` was passed and nothing it reads is rebound
+    'no-op'    `groups is None`, while an earlier top-level test has raised unless groups is None or already equals the panel column:
+               in the case the fact excludes, the assignment would not change anything
+    'unknown'  anything else"""
+    txt = unparse(e)
+    if txt in _PANEL:
+        return 'panel' if pol else 'unknown'
+    nt = _none_test(e, 'groups')
+    if nt is not None:
+        if nt != pol:
+            return 'not-none'
+    elif pol and (txt == 'groups' or txt in ('isinstance(groups, str)', 'bool(groups)')):
+        return 'not-none'
+    tops = list(func_node.body)
+    here = next((i for i, st in enumerate(tops) if isinstance(st, ast.If) and st.test is top_test), None)
+    if here is None or rebound:
+        return 'unknown'
+    earlier = [st for st in tops[:here] if isinstance(st, ast.If)]
+    if any(isinstance(x, (ast.Return, ast.Break, ast.Continue)) for st in tops[:here] for x in ast.walk(st)) or not all(isinstance(st, (ast.If, ast.Expr, ast.Assign, ast.AnnAssign)) for st in tops[:here]):
+        return 'unknown'
+    if nt is not None and nt == pol:
+        # groups is None is required: harmless when "groups given, panel data, groups differs from the panel column" has been refused before
+        for st in earlier:
+            for r in ast.walk(st):
+                if isinstance(r, ast.Raise):
+                    ch = _guards(func_node, r)
+                    if not isinstance(ch, list):
+                        continue
+                    fs = _facts(ch)
+                    diff = [(x, p_) for x, p_ in fs if _same_claim(x, p_) & {'groups != self.panelColumn', 'self.panelColumn != groups'}]
+                    rest = [(x, p_) for x, p_ in fs if (x, p_) not in diff]
+                    if len(diff) >= 1 and all((unparse(x) in _PANEL and p_) or (_none_test(x, 'groups') is not None and _none_test(x, 'groups') != p_) for x, p_ in rest):
+                        return 'no-op'
+        return 'unknown'
+    # a test whose contrary has been refused before
+    reads = {unparse(x) for x in ast.walk(e) if isinstance(x, (ast.Name, ast.Attribute))}
+    stored = {unparse(x) for n in walk_no_nested(func_node) for x in ast.walk(n) if isinstance(x, (ast.Name, ast.Attribute)) and isinstance(getattr(x, 'ctx', None), (ast.Store, ast.Del))}
+    if reads & stored or any(isinstance(x, ast.Call) for x in ast.walk(e)):
+        return 'unknown'
+    claim = _same_claim(e, pol)
+    for st in earlier:
+        if _raises(st.body) and not st.orelse:
+            contrary = _facts([(st.test, True)])
+            if len(contrary) == 1 and _same_claim(contrary[0][0], not contrary[0][1]) & claim:
+                return 'holds'
+    return 'unknown'
 
 
 _D = 'src/biogeme/database.py'
